@@ -967,7 +967,9 @@ class Midline(
             )
 
         ipsi_evo = self.ext.ipsi.state_dist_evo()
-        drawn_diags = np.empty(shape=(num, len(self.ext.ipsi.obs_list)))
+        num_ipsi_cols = self.ext.ipsi.obs_list.shape[1]
+        num_contra_cols = self.ext.contra.obs_list.shape[1]
+        drawn_diags = np.empty(shape=(num, num_ipsi_cols + num_contra_cols))
         for case in ["ext", "noext"]:
             case_model = getattr(self, case)
             drawn_ipsi_diags = utils.draw_diagnosis(
